@@ -439,6 +439,30 @@ def Y2(ctx):
             ctx.bad("Y2", fk, "Thread.causality is mutably borrowed by %s and handed to %s: not an inventoried edge" % (fk, ck),
                     site_str(prog, w["fn"], w["bb"]), detail="mut:%s" % (ck or "?"))
     ctx.floor("Y2", n, 7, "4 joins + 2 increments (+constructor)")
+    # the release-fence view `released` is written only by release fences (and initialised empty)
+    nrel = 0
+    for w in prog.writers().get((T, "released"), []):
+        fk = enclosing_fn(w["fn"])
+        nrel += 1
+        if (w["kind"] == "construct" and fk == "rt::thread::Thread::new") or (w["kind"] == "assign" and fk == "rt::atomic::fence_rel"):
+            ctx.ok("Y2", fk + ":released", "release-fence view written by %s" % fk.split("::")[-1], [site_str(prog, w["fn"], w["bb"])])
+        else:
+            ctx.bad("Y2", fk, "the release-fence view `Thread.released` is modified by %s (%s): stores of this thread then publish causality no "
+                    "release fence of the thread captured (over-synchronisation)" % (fk, w["kind"]), site_str(prog, w["fn"], w["bb"]), detail="released")
+    ctx.floor("Y2-released", nrel, 2, "Thread::new, fence_rel")
+    # spawn ticks both clocks (parent and child), so that the first access of either is ordered against the other
+    nfn = prog.fn("rt::execution::Execution::new_thread")
+    if nfn is not None:
+        inst = prog.ident(nfn.key)
+        recv = set()
+        for (b, t, c) in prog.sites(inst):
+            if "IndexMut" in prog.callee_key(c) and mentions_field(arg_expr(nfn.body, t, 0), T, "causality"):
+                recv.add((canon(strip(arg_expr(nfn.body, t, 0))), canon(strip(arg_expr(nfn.body, t, 1)))))
+        if len(recv) == 2 and len({r for r, _ in recv}) == 2 and len({i for _, i in recv}) == 2:
+            ctx.ok("Y2", nfn.key + ":tick", "parent and child each advance their own clock component at spawn", [nfn.loc()])
+        else:
+            ctx.bad("Y2", nfn.key, "spawn must advance both the parent's and the child's own clock component (found %s): otherwise an access "
+                    "right after spawn carries the version the other thread inherited and is treated as ordered" % sorted(recv), nfn.loc(), detail="tick")
     # seq_cst is a documented no-op
     fn = need_fn(ctx, "Y2", "rt::thread::Set::seq_cst")
     if fn is not None:
@@ -539,6 +563,19 @@ def Y4(ctx):
         ctx.bad("Y4", "rt::atomic::fence", "fence(Relaxed) must panic (std does)", prog.fns[fn_key].loc(), detail="Relaxed")
     else:
         ctx.ok("Y4", "fence[Relaxed]", "diverges", [prog.fns[fn_key].loc()])
+    # a SeqCst fence first acquires/releases, then joins the global SC clock (what the fence acquires must be published)
+    fs = prog.ident("rt::atomic::fence_seqcst")
+    if fs is None:
+        ctx.missing("Y4", "rt::atomic::fence_seqcst")
+    else:
+        ea2 = EventAnalysis(prog, _table_matcher).solve([fs])
+        m2 = ea2.must_of(fs)
+        if m2 is not TOP and {"fence_acq", "fence_rel", "seq_cst_fence"} <= set(m2) and not ea2.must_before(fs, "fence_acq", "seq_cst_fence") \
+                and not ea2.must_before(fs, "fence_rel", "seq_cst_fence"):
+            ctx.ok("Y4", "fence_seqcst:order", "acquire + release parts precede the join with the global SC clock", [prog.fns["rt::atomic::fence_seqcst"].loc()])
+        else:
+            ctx.bad("Y4", "rt::atomic::fence_seqcst", "a SeqCst fence must acquire (and release) before it joins the global SC clock: otherwise what the "
+                    "fence acquires never reaches later SC fences of other threads", prog.fns["rt::atomic::fence_seqcst"].loc(), detail="order")
     # seq_cst_fence joins in both directions
     fn = need_fn(ctx, "Y4", "rt::thread::Set::seq_cst_fence")
     if fn is not None:
